@@ -9,17 +9,17 @@ INFO = {
     'explanation': (
         'Symbolic execution of the real rate / predict_win / predict_draw / predict_rank (sx engine, mode R) in which every arithmetic '
         'exception CPython could raise is a guarded path outcome: division by zero, square root of a negative, exp() overflow (argument above '
-        '709.78), inverse-CDF domain error. Cancellation is modelled: a divisor computed as A - B with A, B >= 0 counts as zero as soon as |A - B| <= 2^-54 (A + B). Float underflow to zero is modelled too: exp, Phi and phi are only known to be positive above their underflow thresholds (-745, -38.4, |x| < 38.5), so a division by one of them needs either a proved bound on its argument or a guard on the computed value in the path condition. Over the exact domain of the property (mu in [-20b, 20b], sigma in '
+        '709.78), overflow of float ** int, inverse-CDF domain error. Cancellation is modelled: a divisor computed as A - B with A, B >= 0 counts as zero as soon as |A - B| <= 2^-54 (A + B). Float underflow to zero is modelled too: exp, Phi and phi are only known to be positive above their underflow thresholds (-745, -38.4, |x| < 38.5), so a division by one of them needs either a proved bound on its argument or a guard on the computed value in the path condition. Over the exact domain of the property (mu in [-20b, 20b], sigma in '
         '[1e-4 b, 10 b] or sigma = 0 with tau > 0, 0 <= tau <= 10 b, kappa in (0, 1e-2], any beta > 0 - the rescaling is a symbolic beta) z3 must '
         'refute the bad side of every guard, first on the cone of influence of its operands with their proved range lemmas, then on the full path. '
         'A guard that cannot be refuted is an open obligation: its model is replayed on the real float code, which must raise or return a '
         'non-finite number to count as a violation. No path may end in any other exception either. Phi^-1((1+1/N)/2) is evaluated by the library '
         'for each concrete N in the run.'),
     'bounds': {
-        'quick': 'five models; rate: shapes (1,1),(2,1),(1,1,1),(2,2),(3,1) x {strict, tie, mixed} outcomes; PL/BT also (8,8), six and eight single-player teams, (2,1,2,1); rate with tau given per call on a tau = 0 model (sigma = 0 allowed); predictions: (1,1),(2,1),(1,1,1),(2,2,2),(1,1,1,1),(8,8)',
-        'thorough': '+ (16,16) and 8 single-player teams (guard obligations only), TM (2,2) ties',
+        'quick': 'five models; rate: shapes (1,1),(2,1),(1,1,1),(2,2),(3,1) x {strict, tie, mixed} outcomes; PL/BT also (8,8), (16,16), six and eight single-player teams, (2,1,2,1); rate with tau given per call on a tau = 0 model (sigma = 0 allowed); predictions: (1,1),(2,1),(1,1,1),(2,2,2),(1,1,1,1),(8,8)',
+        'thorough': '+ (16,16) ties, TM (16,16), 8 single-player teams (guard obligations only), TM (2,2) ties',
     },
-    'outside': ['overflow / underflow of + - * / ** (magnitudes argued: |mu| <= 20*16*beta, c >= sqrt(2)*beta, so every intermediate is within (20*16)^2 of beta^2 scale)',
+    'outside': ['overflow of float ** int is a guarded outcome where the base depends on an exp() result (for beta in [4.2e-3, 4.2e3], the six orders of magnitude of the property); other overflow / underflow of + - * / ** (magnitudes argued: |mu| <= 20*16*beta, c >= sqrt(2)*beta, so every intermediate is within (20*16)^2 of beta^2 scale)',
                 'the float-side guards of v/w/vt/wt compare COMPUTED values with machine epsilon, so the divisions they protect are safe in floats by construction (noted, not solved)',
                 '9+ teams'],
     'stubs': None,
@@ -40,11 +40,11 @@ def jobs(tier):
         if not tm:
             cells += [((1, 1, 1), (0, 1, 2)), ((1, 1, 1), (1, 0, 1)), ((1, 1, 1), (0, 0, 0)), ((2, 2), (0, 1)), ((2, 2), (0, 0)),
                       ((8, 8), (0, 1)), ((8, 8), (0, 0)), ((1,) * 6, (0, 1, 2, 3, 4, 5)), ((1,) * 8, (7, 6, 5, 4, 3, 2, 1, 0)),
-                      ((1,) * 8, (0, 0, 1, 1, 2, 2, 3, 3)), ((2, 1, 2, 1), (1, 0, 2, 2))]
+                      ((1,) * 8, (0, 0, 1, 1, 2, 2, 3, 3)), ((2, 1, 2, 1), (1, 0, 2, 2)), ((16, 16), (1, 0))]
         else:
             cells += [((2, 2), (0, 1)), ((8, 8), (0, 1))]
         if tier == 'thorough':
-            cells += [((16, 16), (1, 0))]
+            cells += [((16, 16), (1, 0))] if tm else []
             if not tm:
                 cells += [((16, 16), (0, 0)), ((1,) * 8, tuple(range(8))), ((1,) * 8, (0, 0, 1, 1, 2, 2, 3, 3))]
             else:
@@ -67,6 +67,25 @@ def _domain(shape, rate):
     if rate:
         return H.domain(shape, sigma_zero_ok=True)
     return PR.pred_domain(shape)
+
+
+def _in_domain(e, rate):
+    """concrete membership in the property's numeric domain (corner points are drawn a little beyond it on purpose)"""
+    b = e.get('beta', 25 / 6)
+    if not b > 0:
+        return False
+    tau = e.get('tau', 0.0)
+    if rate and not (0 <= tau <= 10 * b and 0 < e.get('kappa', 1e-4) <= 1e-2):
+        return False
+    for n, v in e.items():
+        if n.startswith('mu_') and abs(v) > 20 * b * (1 + 1e-12):
+            return False
+        if n.startswith('sg_'):
+            if v > 10 * b * (1 + 1e-12) or v < 0:
+                return False
+            if rate and v < 1e-4 * b * (1 - 1e-12) and not (v == 0 and tau > 0):
+                return False
+    return True
 
 
 def run_job(spec, ctx):
@@ -99,7 +118,9 @@ def run_job(spec, ctx):
     def draw(rng):
         e = (H.draw_fn(shape) if rate else PR.pred_draw(shape))(rng)
         return e
-    opts = {'deadline': ctx.deadline, 'guards': 'record', 'guard_timeout': 10000 if spec.get('budget', 600) <= 1200 else 30000, 'branch_timeout': 8000, 'underflow': True, 'absorption': True, 'no_t1': sum(shape) > 4}
+    opts = {'deadline': ctx.deadline, 'guards': 'record', 'guard_timeout': 10000 if spec.get('budget', 600) <= 1200 else 30000, 'branch_timeout': 8000, 'underflow': True, 'absorption': True, 'no_t1': sum(shape) > 4,
+            # x ** n of a float raises OverflowError beyond the double range; decided for beta within the six orders of magnitude the property states
+            'pow_overflow': [z3.Real('beta') >= core.rv(25.0 / 6000.0), z3.Real('beta') <= core.rv(25000.0 / 6.0)]}
     nguards = 0
     for (kind, out), eng in core.iter_paths(run, base, draw, opts=opts):
         ctx.paths += 1
@@ -145,7 +166,15 @@ def run_job(spec, ctx):
             cands = []
             if r == 'sat':
                 cands = [{'spec': spec, 'inputs': inp} for inp in H.witness_models(eng, cond, names, H.nice_pins(shape) if rate else ())]
-                H.mark_last(cands)
+            if not cands:
+                # not refuted and no solver model (time-out): the corner points of the domain are tried as witnesses;
+                # if none of them makes the real code fail the obligation stays inconclusive
+                pts = [e for e in H.corner_inputs(names) if _in_domain(e, rate)]
+                if pts:
+                    inp = dict(pts[0])
+                    inp['__alt__'] = pts[1:]
+                    cands = [{'spec': spec, 'inputs': inp}]
+            H.mark_last(cands)
             ctx.ob(f'{op}: guard {what} cannot be refuted: {str(cond)[:160]}', 'sat' if cands else 'unknown', cands or None)
         # structure: one number (pair) per team / player, whatever float underflow does on this path
         if rate:
